@@ -161,9 +161,13 @@ struct Stats {
 }
 
 fn check_program(rep: &Reporter, c: &Counters, st: &Stats, prog: &Program, mb: &HashMap<String, Vec<Item>>, cli: bool) {
+    check_program_h(rep, c, st, prog, mb, cli, 2000)
+}
+
+fn check_program_h(rep: &Reporter, c: &Counters, st: &Stats, prog: &Program, mb: &HashMap<String, Vec<Item>>, cli: bool, horizon: usize) {
     let src = render(prog);
     let flat = rp::flatten(prog, mb);
-    let rr = rp::run(&flat, &rp::RunOpts { stdin: vec![], interpreted: false, horizon: 2000, dos_0a: false, rep_prompt_per_iteration: false });
+    let rr = rp::run(&flat, &rp::RunOpts { stdin: vec![], interpreted: false, horizon, dos_0a: false, rep_prompt_per_iteration: false });
     st.programs.fetch_add(1, Ordering::Relaxed);
     match rr.stop {
         rp::Stop::Horizon => {
@@ -185,7 +189,7 @@ fn check_program(rep: &Reporter, c: &Counters, st: &Stats, prog: &Program, mb: &
             got_val: None,
             expected,
             got,
-            case: json!({"src": src, "reference_trace": rr.trace, "reference_stop": format!("{:?}", rr.stop)}),
+            case: if src.len() < 20_000 { json!({"src": src, "reference_trace": rr.trace, "reference_stop": format!("{:?}", rr.stop)}) } else { json!({"src_head": clip_text(&src, 600), "src_tail": src[src.len() - 400..].to_string(), "src_lines": src.lines().count(), "reference_stop": format!("{:?}", rr.stop)}) },
             weight: src.len() as u64,
         });
     };
@@ -244,7 +248,7 @@ fn check_program(rep: &Reporter, c: &Counters, st: &Stats, prog: &Program, mb: &
         return;
     };
     let mut vm = emulator_8086_lib::VM::new();
-    let run = match run_program(&asm, &mut vm, 4000) {
+    let run = match run_program(&asm, &mut vm, horizon * 2) {
         Ok(r) => r,
         Err(e) => {
             viol("refused", "program with start label runs".into(), e);
@@ -260,8 +264,8 @@ fn check_program(rep: &Reporter, c: &Counters, st: &Stats, prog: &Program, mb: &
         let k = got_trace.iter().zip(rr.trace.iter()).position(|(a, b)| a != b).unwrap_or(got_trace.len().min(rr.trace.len()));
         viol(
             "trace",
-            format!("executed instruction indices {:?}", rr.trace),
-            format!("{:?} (first difference at step {}; emitted code {:?})", got_trace, k, asm.code),
+            clip_text(&format!("executed instruction indices {:?}", rr.trace), 1500),
+            if got_trace.len() < 200 { format!("{:?} (first difference at step {}; emitted code {:?})", got_trace, k, asm.code) } else { format!("first difference at step {}: expected instruction {:?}, executed {:?}", k, rr.trace.get(k), got_trace.get(k)) },
         );
         return;
     }
@@ -271,7 +275,7 @@ fn check_program(rep: &Reporter, c: &Counters, st: &Stats, prog: &Program, mb: &
         _ => false,
     };
     if !stop_ok {
-        viol("stop", format!("{:?}", rr.stop), format!("{:?} (trace {:?})", run.stop, run.trace));
+        viol("stop", format!("{:?}", rr.stop), clip_text(&format!("{:?} (trace {:?})", run.stop, run.trace), 1500));
         return;
     }
     let got = Regs::from_vm(&vm);
@@ -379,6 +383,51 @@ fn special_programs() -> Vec<Program> {
     v
 }
 
+/// programs whose calls, returns and jump targets lie at emitted-instruction indices around 2^16
+/// (an index kept in 16 bits would wrap there)
+fn large_programs() -> Vec<(String, Program)> {
+    let mut v = Vec::new();
+    let fill = |code: &mut Vec<Item>, n: usize| {
+        for _ in 0..n {
+            code.push(Item::Ins(Instr::Un(UnOp::Inc, Opnd::R16(R_BX))));
+        }
+    };
+    // f occupies indices 0,1 (inc dx, implied ret); start's first instruction is index 2
+    for call_at in [65534usize, 65535, 65536, 65537, 70000] {
+        let mut code = vec![b::proc("f", vec![Item::Ins(Instr::Un(UnOp::Inc, Opnd::R16(R_DX)))]), b::label("start"), Item::Ins(Instr::Zero(ZeroOp::Stc))];
+        fill(&mut code, call_at - 3);
+        code.push(b::call("f")); // emitted index = call_at
+        code.push(Item::Ins(Instr::Zero(ZeroOp::Cmc)));
+        code.push(b::jmp("jmp", "tail"));
+        code.push(b::mov(b::r16("cx"), b::imm(0x0BAD)));
+        code.push(b::label("tail"));
+        code.push(b::call("f"));
+        code.push(b::jmp("jnc", "fin"));
+        code.push(b::mov(b::r16("si"), b::imm(0x0BAD)));
+        code.push(b::label("fin"));
+        code.push(b::mov(b::r16("di"), b::imm(0x600D)));
+        v.push((format!("call at emitted index {}", call_at), Program { data: vec![], code }));
+    }
+    // a loop whose body crosses index 2^16, and a procedure defined beyond it
+    {
+        let mut code = vec![b::label("start"), b::mov(b::r16("cx"), b::imm(2)), b::jmp("jmp", "again")];
+        fill(&mut code, 65000);
+        code.push(b::label("again"));
+        fill(&mut code, 700);
+        code.push(b::jmp("loop", "again"));
+        code.push(b::jmp("jmp", "over"));
+        code.push(b::proc("late", vec![Item::Ins(Instr::Un(UnOp::Inc, Opnd::R16(R_DX))), b::jmp("jc", "leave_"), Item::Ins(Instr::Un(UnOp::Inc, Opnd::R16(R_DX))), b::label("leave_")]));
+        code.push(b::label("over"));
+        code.push(Item::Ins(Instr::Zero(ZeroOp::Stc)));
+        code.push(b::call("late"));
+        code.push(Item::Ins(Instr::Zero(ZeroOp::Clc)));
+        code.push(b::call("late"));
+        code.push(b::mov(b::r16("di"), b::imm(0x600D)));
+        v.push(("loop body, procedure and labels beyond emitted index 65536".into(), Program { data: vec![], code }));
+    }
+    v
+}
+
 pub fn run(tier: &Tier) -> i32 {
     let rep_o = Reporter::new("C08", tier.name());
     let c_o = Counters::default();
@@ -427,10 +476,15 @@ pub fn run(tier: &Tier) -> i32 {
         check_program(rep, c, &st, &p, &mb2, true);
         c.sample(json!({"special_program": render(&p)}));
     }
+    let large = large_programs();
+    large.par_iter().for_each(|(name, p)| {
+        check_program_h(rep, c, &st, p, &mb, false, 200_000);
+        c.outcome(&format!("large: {}", name));
+    });
     c.states.fetch_add(st.programs.load(Ordering::Relaxed), Ordering::Relaxed);
     let mut cov = Coverage::default();
     cov.exhaustive = true;
-    cov.rule = format!("all sequences of at most {} items over a {}-item alphabet (stc, clc, cmc, labels a/b, the label start at every position, jmp/jc/jnc/loop to a/b, mov cx, call f/g, hlt, print flags, a macro use, nop, four procedure definitions incl. explicit ret + dead code, nested call and a local loop) that are well formed (in the quick tier the macro use only in sequences below the maximum length; labels and procedures defined once, targets defined, procedures defined before their call); each rendered to source, assembled by the real Preprocessor and run by a replica of the driver loop around the real Interpreter; the complete executed trace, the halt reason and the final registers are compared with a reference interpreter working on the AST. All programs with at most {} items also run through the real CLI binary and its stdout is matched against the reference event list. Diverging programs (reference step horizon 2000) and programs that fall into a procedure are discarded and counted. transitions = executed instructions; states = programs", k, alpha.len(), kcli);
+    cov.rule = format!("all sequences of at most {} items over a {}-item alphabet (stc, clc, cmc, labels a/b, the label start at every position, jmp/jc/jnc/loop to a/b, mov cx, call f/g, hlt, print flags, a macro use, nop, four procedure definitions incl. explicit ret + dead code, nested call and a local loop) that are well formed (in the quick tier the macro use only in sequences below the maximum length; labels and procedures defined once, targets defined, procedures defined before their call); each rendered to source, assembled by the real Preprocessor and run by a replica of the driver loop around the real Interpreter; the complete executed trace, the halt reason and the final registers are compared with a reference interpreter working on the AST. All programs with at most {} items also run through the real CLI binary and its stdout is matched against the reference event list. Plus 6 large programs whose calls, returns, loop bodies, labels and procedures lie at emitted-instruction indices 65534..70000 (an index held in 16 bits wraps there). Diverging programs (reference step horizon 2000) and programs that fall into a procedure are discarded and counted. transitions = executed instructions; states = programs", k, alpha.len(), kcli);
     cov.bounds = json!({"max_items": k, "alphabet": alpha.len(), "cli_max_items": kcli, "programs": st.programs.load(Ordering::Relaxed), "discarded_diverging": st.diverging.load(Ordering::Relaxed), "discarded_fall_into_procedure": st.ret_empty.load(Ordering::Relaxed), "tier": tier.name()});
     cov.assumptions = common_assumptions();
     cov.assumptions.push("NOP may assemble to zero or one instruction; traces are compared with NOPs removed".into());
